@@ -458,6 +458,8 @@ def check_history(stages, col, inp):
             asm_b = Assembly("b", scaffolds=list(reversed(objs)))
         now = [(o.name, o.rank) for o in objs]
         where = f"stage {si}: scaffolds {now}" + (f", the same objects that went through name_natural_key and both sorts as {before}" if before else "")
+        if "attrs" in stage:
+            where += f"; attributes other than name and rank assigned in place, which must not count: {brief(stage['attrs'])}"
         col.evaluations += 3
         try:
             keys = [Assembly.name_natural_key(o) for o in objs]
